@@ -1,10 +1,111 @@
+/-
+  C20 — property theorems (units part; the export/import part follows below).
+-/
 import LpModel.C20
+import LpProofs.C20.Units
 namespace Lp.C20
 
+/-! ## Initialisation order -/
+
+/-- **units_init_sound** (generic, any table): if no name is defined twice and every name a
+    dynamic definition refers to is static, or dynamic and textually earlier (`wellOrdered`),
+    then after start-up every constant equals the value of its defining expression. -/
+theorem units_init_sound (T : Transc) (defs : List Def) (h : wellOrdered defs = true) :
+    ∀ p ∈ defs, value T defs p.1 = eval T (startup T defs) p.2 := by
+  intro p hp
+  simp only [wellOrdered, Bool.and_eq_true] at h
+  obtain ⟨hnd, hdyn⟩ := h
+  have hperm := split_perm defs []
+  have hnd' : (names (staticDefs defs) ++ names (dynamicDefs defs)).Nodup := by
+    have h1 : List.Perm (names (staticDefs defs) ++ names (dynamicDefs defs)) (defs.map (·.1)) := by
+      have := hperm.map (·.1)
+      simpa [names, staticDefs, dynamicDefs] using this
+    exact h1.nodup_iff.mpr ((nodupNames_iff _).mp hnd)
+  obtain ⟨hndS, hndD, hdisj⟩ := List.nodup_append.mp hnd'
+  have hstat := static_readsOK defs []
+  have hp' : p ∈ staticDefs defs ++ dynamicDefs defs := hperm.mem_iff.mpr hp
+  unfold value startup
+  rcases List.mem_append.mp hp' with hs | hd
+  · -- a static definition: true after the static phase, untouched by the dynamic phase
+    have h1 := run_sound T (staticDefs defs) [] [] hstat hndS (fun _ _ hc => by cases hc) p hs
+    have hpn : p.1 ∈ names (staticDefs defs) := List.mem_map_of_mem hs
+    have hnot : ∀ x ∈ names (staticDefs defs), x ∉ names (dynamicDefs defs) :=
+      fun x hx hc => hdisj x hx x hc rfl
+    rw [run_get_not_mem T _ _ _ (hnot _ hpn), h1]
+    apply eval_congr
+    intro x hx
+    rcases readsOK_refs _ _ hstat p hs x hx with hc | hc
+    · cases hc
+    · exact (run_get_not_mem T _ _ _ (hnot _ hc)).symm
+  · -- a dynamic definition
+    exact run_sound T (dynamicDefs defs) (staticNames defs) _ hdyn hndD
+      (fun n hn hc => hdisj n hc n hn rfl) p hd
+
+example : wellOrdered [("J", .mul (.ref "kg") (.powi (.ref "m") 2)), ("kg", .q 1000 1), ("m", .q 5 1)] = true := by
+  decide
+
+/-- the model reflects the hazard: an ingredient that is itself dynamic and defined later is rejected -/
+example : wellOrdered [("J", .mul (.ref "kg") (.powi (.ref "m") 2)), ("g", .q 1 1),
+    ("kg", .mul (.powi (.q 10 1) 3) (.ref "g")), ("m", .q 5 1)] = false := by decide
+
+/-- … and then the constant really is wrong after start-up (reads the zero-initialised `kg`) -/
+example : valueQ [("J", .mul (.ref "kg") (.powi (.ref "m") 2)), ("g", .q 1 1),
+    ("kg", .mul (.powi (.q 10 1) 3) (.ref "g")), ("m", .q 5 1)] "J" = some 0 := by decide +kernel
+
+/-- **units_wellOrdered**: the table generated from the current `Natural_Units.cpp` is well ordered
+    (kernel evaluation; re-checked whenever the translator rewrites `Generated.lean`). -/
 theorem units_wellOrdered : wellOrdered unitDefs = true := by decide +kernel
+
+/-- **units_correct**: every constant of `Natural_Units.cpp` equals its defining expression
+    after start-up, in every build whose compiler folds call-free initialisers. -/
+theorem units_correct (T : Transc) :
+    ∀ p ∈ unitDefs, value T unitDefs p.1 = eval T (startup T unitDefs) p.2 :=
+  units_init_sound T unitDefs units_wellOrdered
+
+/-- the exact rational computed by the partial evaluator is the run-time value, for every
+    interpretation of the opaque functions -/
+theorem valueQ_sound (defs : List Def) (n : String) (v : Rat) (h : valueQ defs n = some v) (T : Transc) :
+    value T defs n = v := by
+  have hs := startupS_sound T defs n
+  unfold valueQ valueS at h
+  unfold value
+  rw [← hs]
+  split at h
+  · rename_i w hw
+    rw [hw]; simp only [Option.some.injEq] at h; rw [← h]; rfl
+  · cases h
+
+theorem identity_sound (defs : List Def) (lhs : String) (rhs : Expr) (h : identity defs lhs rhs = true)
+    (T : Transc) : value T defs lhs = eval T (startup T defs) rhs ∧ value T defs lhs ≠ 0 := by
+  unfold identity at h
+  split at h
+  · rename_i v w hv hw
+    simp only [Bool.and_eq_true, decide_eq_true_eq] at h
+    have h1 := valueQ_sound defs lhs v hv T
+    have h2 := pe_sound T (startupS defs) (startup T defs) (startupS_sound T defs) rhs
+    rw [hw] at h2
+    refine ⟨?_, by rw [h1]; exact h.2⟩
+    rw [h1, ← h2, h.1]; rfl
+  · cases h
+
+/-- **derived_units** (exact rational identities on the generated table, kernel evaluation):
+    Joule = kg·m²/s², Newton, Watt, Pascal, erg, dyne, Volt·Coulomb = Joule, Ohm = Volt/Ampere,
+    Tesla, Hz, the time and length multiples, … (`derivedIdentities`), each side non-zero. -/
 theorem derived_units : derivedOK unitDefs = true := by decide +kernel
 
-#eval (dynamicDefs unitDefs).map (·.1)
-#eval (valueS unitDefs "mPlanck_reduced").show
-#eval (valueS unitDefs "Joule").show
+/-- the same, spelled out semantically for every interpretation of `M_PI`, `sqrt`, `pow` -/
+theorem derived_units_sem (T : Transc) : ∀ p ∈ derivedIdentities,
+    value T unitDefs p.1 = eval T (startup T unitDefs) p.2 ∧ value T unitDefs p.1 ≠ 0 := by
+  intro p hp
+  have h := List.all_eq_true.mp derived_units p hp
+  exact identity_sound unitDefs p.1 p.2 h T
+
+/-- e.g. Joule -/
+theorem joule_def (T : Transc) :
+    value T unitDefs "Joule"
+      = value T unitDefs "kg" * (value T unitDefs "meter" * value T unitDefs "meter")
+        / (value T unitDefs "sec" * value T unitDefs "sec") :=
+  (derived_units_sem T ("Joule", .div (.mul (.ref "kg") (.mul (.ref "meter") (.ref "meter")))
+      (.mul (.ref "sec") (.ref "sec"))) (by simp [derivedIdentities])).1
+
 end Lp.C20
